@@ -1,5 +1,6 @@
 import GMGProofs.Props.C19i
 import GMGProofs.Props.C10i
+import GMGProofs.Props.C10j
 /-!
 # Shipped test problem → fixed point of the concrete cycle, in one statement
 
@@ -61,5 +62,31 @@ theorem shipped_exact_fixed (env : Nat → ℝ) (g : Geo) (hg : g.ParamsOK env) 
     cycle (hier (shipped env g p) grids true cc cg tiny C04c.genTables) ⟨L, nu1, nu2⟩ k false fgs m (0, Buf.sol) = some u :=
   C10i.concrete_exact_fixed_setup (shipped env g p) grids cc cg tiny nr nt maxLevels L crit hsel hlen hchain hshape
     (fun G hG => shipped_inputsOK env g hg p hp G (hgrid G hG)) k nu1 nu2 fgs u f ht1 M hM ht hu hsol m hm hr
+
+/-- **shipped problem → fixed point of the implicitly extrapolated cycle** (either level-0 smoother): `C10j.concrete_exact_fixed_extrap_setup`
+    with the input hypothesis discharged by C19i for every shipped geometry and coefficient profile -/
+theorem shipped_exact_fixed_extrap (env : Nat → ℝ) (g : Geo) (hg : g.ParamsOK env) (p : Expr × Expr) (hp : p ∈ profiles)
+    (grids : List (GridData ℝ)) (cc cg : Bool) (tiny : ℝ → Bool)
+    (nr nt : Nat) (maxLevels : Int) (L : Nat) (crit : Nat → Nat → Bool)
+    (hsel : chooseLevels nr nt maxLevels = .ok L) (hlen : grids.length = L)
+    (hchain : List.IsChain C03c.Nested grids)
+    (hshape : ∀ l (hl : l < grids.length), (grids[l]).g.nr = coarsenR l nr ∧ (grids[l]).g.nt = coarsenT l nt ∧
+      (grids[l]).g.nc = Split.autoNc (crit l) (coarsenR l nr))
+    (hgrid : ∀ G ∈ grids, GridOK env G)
+    (k : Kind) (nu1 nu2 : Nat) (fgs : Bool) (u f f1 : Array ℝ) (ht1 : tiny 1 = false)
+    (M : SparseLU.CSR ℝ)
+    (hM : DirectCode.assemble C04c.genTables (lvl (hier (shipped env g p) grids true cc cg tiny C04c.genTables) (L - 1)).op = some M)
+    (ht : ∀ r, r < M.rows → tiny (SparseLU.den ((SparseLU.factorRows M).2.getD r []) r) = false)
+    (hu : u.size = nr * nt)
+    (hsol : ∀ i j, i < nr → j < nt →
+      take (lvl (hier (shipped env g p) grids true cc cg tiny C04c.genTables) 0).op (SmootherCode.fld nt f) (SmootherCode.fld nt u) i j = 0)
+    (hsol1 : ∀ i j, i < coarsenR 1 nr → j < coarsenT 1 nt →
+      take (lvl (hier (shipped env g p) grids true cc cg tiny C04c.genTables) 1).op (SmootherCode.fld (coarsenT 1 nt) f1)
+        (Interp.inject (SmootherCode.fld nt u)) i j = 0)
+    (m : Mem (Option (Array ℝ))) (hm : m (0, Buf.sol) = some u) (hr : m (0, Buf.rhs) = some f)
+    (hr1 : m (1, Buf.rhs) = some f1) :
+    cycle (hier (shipped env g p) grids true cc cg tiny C04c.genTables) ⟨L, nu1, nu2⟩ k true fgs m (0, Buf.sol) = some u :=
+  C10j.concrete_exact_fixed_extrap_setup (shipped env g p) grids cc cg tiny nr nt maxLevels L crit hsel hlen hchain hshape
+    (fun G hG => shipped_inputsOK env g hg p hp G (hgrid G hG)) k nu1 nu2 fgs u f f1 ht1 M hM ht hu hsol hsol1 m hm hr hr1
 
 end C19e
